@@ -164,6 +164,21 @@ def proposal_case(name, T, k, start, nsteps, resets, rng, out):
             nres += 1
             twin = fresh_like(name, T, k, p)
             out.count('resets')
+            # right after the reset, before any further update: the reported density is that of a freshly built proposal
+            # (the eigenvector families define theirs only for the most recent jump)
+            if 'eigenvector' not in name:
+                fromx = dict(zip(p.parameters, pos))
+                try:
+                    keep = copy.deepcopy(twin.random_state)
+                    xi = twin.jump(dict(fromx))
+                    twin.random_state = keep
+                    la, lb = float(p.logpdf(dict(xi), dict(fromx))), float(twin.logpdf(dict(xi), dict(fromx)))
+                except Exception:      # noqa
+                    la = lb = 0.0
+                if A.encode_leaf(la) != A.encode_leaf(lb):
+                    return dict(what='%s, reset #%d: right after the reset logpdf() reports %r where a freshly built proposal reports %r'
+                                     % (name, nres, la, lb),
+                                replay=dict(family=name, T=T, k=k, start=start, resets=sorted(resets), step=i, xi=xi, fromx=fromx))
         if acc and name not in DISCRETE:
             pos = [pos[0] + rng.uniform(-0.5, 0.5), min(0.99, max(0.01, pos[1] + rng.uniform(-0.1, 0.1)))]
         for q in ([p] if twin is None else [p, twin]):
